@@ -541,7 +541,7 @@ def wipe_rule(ck, mod, f, label, pi, li, si, envs, only_over=False):
     stores = [I for I in f.insts if I.op == "store" and I.id in used]
     ck.ob(bool(stores), "R-C04-WIPE", CT, "wipe-stores[%s]" % label, "%d store(s) write the plaintext buffer" % len(stores), "nothing writes the plaintext buffer", where=where0)
     for S in stores:
-        lds = [I for I in f.insts if I.op == "load" and _same_addr(f, I.ops[0], S.ops[1]) and I.b == S.b]
+        lds = [I for I in f.insts if I.op == "load" and _same_addr(f, I.ops[0], S.ops[1]) and (I.b == S.b or (f.blocks[I.b].loop == f.blocks[S.b].loop and f.dominates(I.id, S.id)))]
         if len(lds) != 1:
             ck.bad("R-C04-WIPE", CT, "wipe-value#%s[%s]" % (_an(f, S), label), "the store does not combine the bytes already at the same address", where=relpath(S.where))
             continue
@@ -563,6 +563,8 @@ def wipe_rule(ck, mod, f, label, pi, li, si, envs, only_over=False):
         used_mask_bits = []
         for j in range(w):
             bit = got[j] if j < len(got) else None
+            if bit is None or bit is gf2.TOP:
+                raise Broken("%s: bit %d of a value stored into the plaintext buffer is not representable in the term domain: the wipe is not decided" % (CT, j))
             ok1 = False
             if bit is not None and bit is not gf2.TOP and len(bit) == 1:
                 (atom,) = tuple(bit)
